@@ -172,14 +172,10 @@ package exec
 //@   modifies nothing
 //@ extern func exec.(*sliceMachine).Assign
 //@   modifies Task.state, Task.waitc
-//@ extern func exec.(*bigmachineExecutor).addInvocation
-//@   modifies nothing
 //@ extern func exec.(*bigmachineExecutor).checkInvocationReader
 //@   modifies nothing
 //@ extern func exec.(*bigmachineExecutor).manager (i) (mgr)
 //@   ensures mgr != nil && mgr.machprocs >= 1
-//@   modifies nothing
-//@ extern func exec.(*bigmachineExecutor).compile
 //@   modifies nothing
 //@ extern func exec.(*bigmachineExecutor).commit
 //@   modifies nothing
@@ -570,3 +566,41 @@ package exec
 //@   ensures  one-root-per-shard: implies(err == nil && !isResultSlice(slice), len(tasks) == slNumShard(slice) && forall(i, 0, len(tasks), taskShape(tasks[i], slice, 0)) && namesOK(tasks))
 //@   ensures  reused-result: implies(err == nil && isResultSlice(slice), sameTasks(tasks, unbox(slUnwrap(slice), *Result).tasks))
 //@   modifies inv.Env.Cached[:]
+
+// ---- C16: invocations reach a machine dependencies-first ----
+
+// the driver's invocation graph: entries are filed under their own index and every recorded dependency is itself
+// an entry (a Result argument always comes from an invocation seen before)
+//@ spec func invGraphOK(b *bigmachineExecutor) bool = forall(k, uint64, implies(has(b.invocations, k), b.invocations[k].Index == k) && forall(j, uint64, implies(has(b.invocationDeps[k], j), has(b.invocations, j) && has(b.invocations, k)))) && forall(k1, uint64, forall(k2, uint64, implies(k1 != k2 && b.invocationDeps[k1] != nil, b.invocationDeps[k1] != b.invocationDeps[k2]))) && forall(k, uint64, b.invocationDeps[k] == nil || allocated(b.invocationDeps[k]))
+
+//@ func exec.(*bigmachineExecutor).addInvocation (inv) (added, err)
+//@   requires b != nil && b.invocations != nil && b.invocationDeps != nil && invGraphOK(b)
+//@   may_panic
+//@   ensures  first-time: added == !old(has(b.invocations, inv.Index)) && err == nil
+//@   ensures  recorded: has(b.invocations, inv.Index)
+//@   ensures  graph-ok: invGraphOK(b)
+//@   ensures  others-kept: forall(k, uint64, implies(old(has(b.invocations, k)), has(b.invocations, k) && b.invocations[k] == old(b.invocations[k])))
+//@   modifies b.invocations[:], b.invocationDeps[:], b.invocationDeps[inv.Index][:], inv.Args[:], b.mu
+//@   loop 1 invariant b.invocations != nil && b.invocationDeps != nil && !has(b.invocations, inv.Index)
+//@   loop 1 invariant forall(k, uint64, has(b.invocations, k) == old(has(b.invocations, k)) && b.invocations[k] == old(b.invocations[k]))
+//@   loop 1 invariant forall(k, uint64, forall(j, uint64, implies(has(b.invocationDeps[k], j), has(b.invocations, j) && (has(b.invocations, k) || k == inv.Index))))
+//@   loop 1 invariant b.invocationDeps[inv.Index] == old(b.invocationDeps[inv.Index]) || fresh(b.invocationDeps[inv.Index])
+//@   loop 1 invariant forall(k1, uint64, forall(k2, uint64, implies(k1 != k2 && b.invocationDeps[k1] != nil, b.invocationDeps[k1] != b.invocationDeps[k2]))) && forall(k, uint64, b.invocationDeps[k] == nil || allocated(b.invocationDeps[k]))
+
+// The traversal that decides the order in which invocations are compiled on a machine: the list is compiled back to
+// front. Proved here (witness-free facts; the forall-exists statement "every dependency of position p occurs at a
+// later position" did not discharge within any limit we could afford and is argued from these in DESIGN.md):
+// every position holds a known invocation filed under the index that was dequeued for it; each time an invocation is
+// dequeued, every one of its recorded dependencies is enqueued behind it — one queue entry per dependency
+// (count), each entry a dependency of that invocation (membership), no entry twice (distinct).
+//@ func exec.(*bigmachineExecutor).compile (ctx, m, invIndex) (err)
+//@   requires b != nil && m != nil && b.invocations != nil && b.invocationDeps != nil && invGraphOK(b) && has(b.invocations, invIndex)
+//@   modifies b.mu
+//@   loop 1 invariant (invocations == nil || fresh(invocations)) && (todo.arr == 0 || fresh(todo))
+//@   loop 1 invariant queued-known: forall(t, 0, len(todo), has(b.invocations, todo[t])) && forall(p, 0, len(invocations), has(b.invocations, invocations[p].Index) && invocations[p] == b.invocations[invocations[p].Index])
+//@   loop 2 invariant (todo.arr == 0 || fresh(todo)) && forall(t, 0, len(todo), has(b.invocations, todo[t]))
+//@   loop 2 invariant len(invocations) >= 1 && invocations[len(invocations)-1].Index == i && (invocations == nil || fresh(invocations))
+//@   loop 2 invariant one-entry-per-dependency: len(todo) == at_loop(2, len(todo)) + range_idx
+//@   loop 2 invariant entries-are-dependencies: forall(t, at_loop(2, len(todo)), len(todo), has(b.invocationDeps[i], todo[t]) && range_visited[todo[t]])
+//@   loop 2 invariant entries-distinct: forall(t1, at_loop(2, len(todo)), len(todo), forall(t2, at_loop(2, len(todo)), len(todo), implies(t1 != t2, todo[t1] != todo[t2])))
+//@   loop 3 invariant -1 <= i && i < len(invocations)
